@@ -453,6 +453,13 @@ func genText(r *coqfmt.Rng, fi flagInfo) (string, bool) {
 		if r.Chance(1, 6) {
 			return coqfmt.Pick(r, []string{"", "x", "1..2", "--1", "1e", "1e400", "1e39", "-4e38"}), true
 		}
+		if vt == "*flag.float64Value" && r.Chance(1, 8) {
+			// std package: a float32 leaf rides on a float64 flag and Value checks the range itself.  The
+			// largest float32, and a float64 just above it (MaxFloat32 + 2^100: it would ROUND to the
+			// largest float32) - in range for a float64 leaf, out of range for a float32 leaf
+			return coqfmt.Pick(r, []string{"340282346638528859811704183484516925440", "-340282346638528859811704183484516925440",
+				"340282347906179460039933584981220130816", "-340282347906179460039933584981220130816"}), true
+		}
 		return coqfmt.Pick(r, floatTexts), true
 	case strings.HasSuffix(vt, "Complex128Var") || strings.HasSuffix(vt, "Complex64Var") || vt == "p:complex128" || vt == "p:complex64":
 		if r.Chance(1, 6) {
@@ -501,58 +508,6 @@ func genText(r *coqfmt.Rng, fi flagInfo) (string, bool) {
 		return rty.GenMapText(r, el, el, bad), true
 	}
 	return "", false
-}
-
-// hugeFinite: beyond the fixed-point value printer.  An infinity is NOT skipped: no generated text
-// denotes one, so one in a returned value is an overflow that went unreported.
-func hugeFinite(f float64) bool {
-	return !math.IsInf(f, 0) && (f > 1e15 || f < -1e15)
-}
-
-// srcTagCombos: does some field carry only this package's tag / only the other package's / both?
-func srcTagCombos(t reflect.Type, ownKey string) (own, other, both bool) {
-	otherKey := "dialspflag"
-	if ownKey == "dialspflag" {
-		otherKey = "dialsflag"
-	}
-	switch t.Kind() {
-	case reflect.Ptr, reflect.Slice, reflect.Array:
-		return srcTagCombos(t.Elem(), ownKey)
-	case reflect.Struct:
-		for i := 0; i < t.NumField(); i++ {
-			f := t.Field(i)
-			_, a := f.Tag.Lookup(ownKey)
-			_, b := f.Tag.Lookup(otherKey)
-			o1, o2, o3 := srcTagCombos(f.Type, ownKey)
-			own, other, both = own || o1 || (a && !b), other || o2 || (b && !a), both || o3 || (a && b)
-		}
-	}
-	return
-}
-
-func hasHugeFloat(v reflect.Value) bool {
-	switch v.Kind() {
-	case reflect.Float32, reflect.Float64:
-		return hugeFinite(v.Float())
-	case reflect.Complex64, reflect.Complex128:
-		c := v.Complex()
-		return hugeFinite(real(c)) || hugeFinite(imag(c))
-	case reflect.Ptr, reflect.Interface:
-		return !v.IsNil() && hasHugeFloat(v.Elem())
-	case reflect.Struct:
-		for i := 0; i < v.NumField(); i++ {
-			if hasHugeFloat(v.Field(i)) {
-				return true
-			}
-		}
-	case reflect.Slice, reflect.Array:
-		for i := 0; i < v.Len(); i++ {
-			if hasHugeFloat(v.Index(i)) {
-				return true
-			}
-		}
-	}
-	return false
 }
 
 func valueSafe(src source, PT reflect.Type) (v reflect.Value, err error, panicked bool) {
@@ -620,7 +575,7 @@ func run(raw json.RawMessage) driver.Result {
 		return t
 	}
 	tmpl0, tmpl1, tmpl2 := mkTemplate(), mkTemplate(), mkTemplate()
-	tmplTerm := rty.StructFieldsTerm(tmpl2.Elem()) // tmpl2: non-nil chan fields print their address, and the stacked result shares them
+	tmplTerm := rty.ExactFloatPrinter.StructFieldsTerm(tmpl2.Elem()) // tmpl2: non-nil chan fields print their address, and the stacked result shares them
 	PT := ptrify.Pointerify(T, tmpl0.Elem())
 
 	_, infos, err0, panic0 := build(in.Pkg, ne, te, tmpl0.Interface(), nil)
@@ -688,18 +643,14 @@ func run(raw json.RawMessage) driver.Result {
 	if err1 == nil && !panic1 {
 		val, err1, panic1 = valueSafe(src, PT)
 	}
-	if err1 == nil && !panic1 && hasHugeFloat(val) {
-		// e.g. 1e39 given to a float64 leaf: in range, but beyond the value printer's fixed-point form
-		return driver.Result{Coq: "FlagSkip", Kind: "skipped-huge-float"}
-	}
 	okTerm := ""
 	stackTerm := "(Err 0)"
 	if err1 == nil && !panic1 {
-		okTerm = rty.StructFieldsTerm(val)
+		okTerm = rty.ExactFloatPrinter.StructFieldsTerm(val)
 		res, serr, spanic := composeSafe(tmpl2, []reflect.Value{val})
 		st := ""
 		if serr == nil && !spanic {
-			st = rty.StructFieldsTerm(res)
+			st = rty.ExactFloatPrinter.StructFieldsTerm(res)
 		}
 		stackTerm = driver.Outcome(st, serr, spanic)
 	}
